@@ -36,9 +36,23 @@ def current(sources: list[str], repo: pathlib.Path = REPO) -> dict[str, str]:
     return {s: fingerprint(repo / s) for s in sources}
 
 
+def anchors() -> dict[str, list[str]]:
+    """Anchored files per property, from properties.jsonl (the default `sources` of a check)."""
+    out = {}
+    for line in (V / "properties.jsonl").read_text().splitlines():
+        if line.strip():
+            p = json.loads(line)
+            out[p["id"]] = list(p["anchors"]["files"])
+    return out
+
+
+def sources_of(prop: str, spec: dict) -> list[str]:
+    return sorted(set(spec.get("sources") or []) | set(anchors().get(prop, [])))
+
+
 def main() -> None:
     specs = {p.stem: json.loads(p.read_text()) for p in sorted((V / "harness" / "props.d").glob("C*.json"))}
-    out = {k: current(v.get("sources", [])) for k, v in specs.items()}
+    out = {k: current(sources_of(k, v)) for k, v in specs.items()}
     if "--update" in sys.argv:
         (V / "harness" / "fingerprints.json").write_text(json.dumps(out, indent=1, sort_keys=True) + "\n")
         print("recorded fingerprints for", ", ".join(k for k, v in out.items() if v))
